@@ -165,7 +165,11 @@ class ImplStack:
         # two methods; `service_offered` reads them at call time
         self.slog = []
         disc = self.p.discovery
-        orig_off, orig_stop = disc._notify_service_offered, disc._notify_service_stopped
+        # private names: if a refactoring renamed them the ghost is simply not observable (the state line says `?` and the
+        # comparison skips it); what listeners see is compared in any case
+        self.slog_ok = hasattr(disc, "_notify_service_offered") and hasattr(disc, "_notify_service_stopped")
+        orig_off = getattr(disc, "_notify_service_offered", None)
+        orig_stop = getattr(disc, "_notify_service_stopped", None)
 
         def note_offered(service, source):
             self.slog.append(f"+{svckey(service)}@{idx_of(source)}")
@@ -175,19 +179,22 @@ class ImplStack:
             self.slog.append(f"-{svckey(service)}@{idx_of(source)}")
             return orig_stop(service, source)
 
-        disc._notify_service_offered, disc._notify_service_stopped = note_offered, note_stopped
+        if self.slog_ok:
+            disc._notify_service_offered, disc._notify_service_stopped = note_offered, note_stopped
         self.slog_seen = 0
         # ghost observation of what send_sd draws from the session storage (C08 whole-run theorem)
         self.txlog = []
-        st = self.p.session_storage
-        orig_assign = st.assign_outgoing
+        st = getattr(self.p, "session_storage", None)
+        self.tx_ok = st is not None and hasattr(st, "assign_outgoing")
+        orig_assign = getattr(st, "assign_outgoing", None)
 
         def assign_outgoing(remote):
             flag, sid = orig_assign(remote)
             self.txlog.append(f"{idx_of(remote)}:{int(bool(flag))}:{sid}")
             return flag, sid
 
-        st.assign_outgoing = assign_outgoing
+        if self.tx_ok:
+            st.assign_outgoing = assign_outgoing
         self.tx_seen = 0
 
     def close(self):
@@ -278,9 +285,9 @@ class ImplStack:
 
         found = store(self.p.discovery.found_services, svckey)
         subs = " ".join(f"{i}>" + store(inst.subscriptions, subkey) for i, inst in enumerate(self.instances))
-        slog = ",".join(self.slog[self.slog_seen:])
+        slog = ",".join(self.slog[self.slog_seen:]) if self.slog_ok else "?"
         self.slog_seen = len(self.slog)
-        tx = ",".join(self.txlog[self.tx_seen:])
+        tx = ",".join(self.txlog[self.tx_seen:]) if self.tx_ok else "?"
         self.tx_seen = len(self.txlog)
         return (f"now={self.loop.ticks} outs=[{' ; '.join(self.outs[n0:])}] ready=[{','.join(str(r) for r in ready)}] "
                 f"timers=[{','.join(f'{q}@{d}:{n}' for d, q, n in timers)}]"
